@@ -94,7 +94,7 @@ func runC14(c *an.Ctx) {
 				"paths removed by VDR must originate from the stage's own metadata directories: origins "+strings.Join(desc, ","))
 		}
 	}
-	c.Floor("W1", "os.RemoveAll sites in the VDR functions", nRemove, 5)
+	c.Floor("W1", "os.RemoveAll sites in the VDR functions", nRemove, 1)
 	// fileParamMap keys are walk paths under enumerateFiles()
 	add := c.NeedFunc(pkgCore, "addFilesToArgsMappings")
 	cache := c.NeedFunc(pkgCore, "(*Fork).cacheParamFileMap")
@@ -306,7 +306,7 @@ func runC14(c *an.Ctx) {
 			}
 		}
 	}
-	c.Floor("W2", "appends to a report's Paths", nPaths, 5)
+	c.Floor("W2", "appends to a report's Paths", nPaths, 1)
 
 	ruleW2CountedOnce(c)
 	// ---------------- W3 ----------------
